@@ -41,6 +41,12 @@ func newSrvLab(sc dyn.Schema, dir string) (*srvLab, error) {
 	if err != nil {
 		return nil, err
 	}
+	return newSrvLabDB(db, dir)
+}
+
+// newSrvLabDB: the same for an already built database model (e.g. one with client indexes).
+func newSrvLabDB(db *dyn.DB, dir string) (*srvLab, error) {
+	sc := db.Spec
 	im := inmemory.NewDatabase(map[string]model.ClientDBModel{sc.Name: db.Client})
 	srv, err := server.NewOvsdbServer(im, db.Model)
 	if err != nil {
